@@ -17,8 +17,9 @@ RULES = {
     'R4': 'the capacity given to the receive slot is the allocation size of receive_buf; that size is at least what the receive path writes unconditionally (the header peek), and the peek itself is made only into a buffer whose capacity was tested to hold it (the client hands its own buffer in)',
     'R6': 'the wake-up bytes of one pass fit the dispatcher\'s buffer: the count of bytes drained into the fixed array is incremented at most once per turn of the request loop, the loop goes on only while the budget taken before it (the clamped queue length, at most the array size) is positive, and inside the loop that budget is only ever decremented',
     'R7': 'a handshake that does not come is not waited for: in qb_ipc_us_recv_msghdr no edge on which the receive has failed (result == -1) leads back to the receive - the server reads the handshake in its main loop, a peer that sends part of it and stalls would stop every other client',
+    'R8': 'descriptors and memory set up for a peer are released when it goes away before it was told: once the transport connect has created the per-client resources the connection is ACTIVE and listed before the response send (or anything else) can fail - the failure branch and the transport disconnects decide from that state what to undo (= C03.R7)',
 }
-FLOORS = {'R1': 6, 'R2': 5, 'R3': 5, 'R4': 4, 'R6': 3, 'R7': 1, 'R5': 1}
+FLOORS = {'R1': 6, 'R2': 5, 'R3': 5, 'R4': 4, 'R6': 3, 'R7': 1, 'R8': 2, 'R5': 1}
 
 
 def run(ctx):
@@ -29,6 +30,13 @@ def run(ctx):
     r5(ctx)
     r6(ctx)
     r7(ctx)
+    # R8 = C03.R7: what was set up for a peer can be released when the peer turns out to be gone
+    from rules import c03
+    sub = type(ctx)(ctx.prog, ctx.prop, ctx.tier, ctx.depth)
+    c03.r7(sub)
+    for r in sub.results:
+        r['rule'] = 'R8'
+        ctx.results.append(r)
 
 
 def _derived_from_param(f, e, at, pname):
